@@ -23,6 +23,12 @@ class history:
         for L in (0, 1, 2, 3):
             for op in history.OPS:
                 yield {"L": L, "ops": [[op[0], repr(op[1]), 0]]}
+        # items that are None (a value like any other) at every position
+        for L in (2, 3, 4):
+            for hole in range(L):
+                for op in history.OPS:
+                    if op[0] in ("take", "peek", "skip", "limit", "copy", "iter"):
+                        yield {"L": L, "ops": [[op[0], repr(op[1]), 0]], "none_at": hole}
         for L in (0, 2, 3):
             for a, b in itertools.product(history.OPS, repeat=2):
                 for t in (0, 1):
@@ -32,8 +38,11 @@ class history:
     def check(inp):
         from audiolazy import Stream
         L = inp["L"]
-        streams = [Stream(list(range(L)))]
-        models = [list(range(L))]
+        base = list(range(L))
+        if inp.get("none_at") is not None:
+            base[inp["none_at"]] = None
+        streams = [Stream(list(base))]
+        models = [list(base)]
         for name, nrepr, target in inp["ops"]:
             n = eval(nrepr, {"inf": INF})
             if target >= len(streams):
